@@ -30,12 +30,15 @@ func (c04) Gen(rt *rapid.T, thorough bool) any {
 	if thorough {
 		maxProd = 32
 	}
-	total := rapid.SampledFrom([]int{12, 60, 160, 320}).Draw(rt, "total")
+	total := rapid.SampledFrom([]int{12, 60, 160, 320, 320, 480}).Draw(rt, "total")
 	if thorough {
 		total = rapid.SampledFrom([]int{12, 160, 320, 600, 1000}).Draw(rt, "total_t")
 	}
 	genProducers(rt, s, maxProd, total, 2)
-	s.Gate = rapid.SampledFrom([]int{0, 1, 1}).Draw(rt, "gate")
+	s.Gate = rapid.SampledFrom([]int{0, 1, 1, 2}).Draw(rt, "gate") // 2 = held until the producers are done
+	if s.Policy == "Block" && s.Gate == 2 {
+		s.Gate = 1 // Block producers need the worker to make progress
+	}
 	s.Slow = rapid.SampledFrom([]int{0, 0, 2}).Draw(rt, "slow")
 	for i, n := 0, rapid.IntRange(0, 2).Draw(rt, "nclock"); i < n; i++ {
 		s.Clock = append(s.Clock, rapid.SampledFrom([]int{1, 1500, 61000}).Draw(rt, "clock_ms"))
@@ -72,6 +75,7 @@ func (c04) Run(x *Exec, scn any) {
 			return
 		}
 	}
+	sys.gateOpen = true
 	x.Sim.Spawn("stopper", sys.stop)
 	sys.drain(x)
 	stopped := true
@@ -124,9 +128,21 @@ func judgeConservation(x *Exec, sys *asyncSys, pid string, subs [][]*Sub, counte
 		}
 	}
 	delivered := map[string]int{} // id -> number of references that received it
+	emptiesDelivered, emptiesAccepted := 0, 0
+	for _, ps := range subs {
+		for _, sb := range ps {
+			if sb.Empty && sys.accepted(sb) {
+				emptiesAccepted++
+			}
+		}
+	}
 	for i, r := range sys.recs {
 		seen := map[string]int{}
 		for _, it := range r.snapshot() {
+			if it.Wr != nil && len(it.Wr.Data) == 0 {
+				emptiesDelivered++ // empty raw writes have no identity: settled by count
+				continue
+			}
 			id, _ := itemID(it)
 			seen[id]++
 			sb := byID[id]
@@ -148,9 +164,13 @@ func judgeConservation(x *Exec, sys *asyncSys, pid string, subs [][]*Sub, counte
 		}
 	}
 	nDelivered := 0
+	if emptiesDelivered > emptiesAccepted {
+		o.violate("duplicate-delivery", pid+"/more-empty-writes-delivered-than-submitted", "%d empty raw writes delivered, %d submitted", emptiesDelivered, emptiesAccepted)
+	}
+	nDelivered += min(emptiesDelivered, emptiesAccepted)
 	for _, ps := range subs {
 		for _, sb := range ps {
-			if !sys.accepted(sb) {
+			if !sys.accepted(sb) || sb.Empty {
 				continue
 			}
 			want := 0
